@@ -52,8 +52,12 @@ func BaseConf() *xconf.EnvConf {
 		os.MkdirAll(filepath.Join(root, "conf"), 0755)
 		os.WriteFile(filepath.Join(root, "conf", "ledger.yaml"),
 			[]byte("kvEngineType: verifmem\nstorageType: single\nutxo:\n  cachesize: 1000\n  tmplockSeconds: 60\n"), 0644)
+		level := "error"
+		if l := os.Getenv("VERIF_LOGLEVEL"); l != "" {
+			level = l // debugging aid: the node's own log under <out>/root-<pid>/logs
+		}
 		os.WriteFile(filepath.Join(root, "conf", "log.yaml"),
-			[]byte("module: verif\nfilename: verif\nfmt: logfmt\nconsole: false\nlevel: error\n"), 0644)
+			[]byte("module: verif\nfilename: verif\nfmt: logfmt\nconsole: false\nlevel: "+level+"\n"), 0644)
 		econf := xconf.GetDefEnvConf()
 		econf.RootPath = root
 		logs.InitLog(econf.GenConfFilePath(econf.LogConf), econf.GenDirAbsPath(econf.LogDir))
@@ -146,6 +150,8 @@ type Node struct {
 	Ctx      *common.ChainCtx
 	Chain    *xuperos.Chain // real PreExec / SubmitTx (verif hook constructor)
 	Miner    *miner.Miner   // real packBlock (verif hook)
+	Net      *SyncNet       // scripted peer network behind EngCtx.Net (block synchronisation path)
+	Cons     *SyncConsensus // scripted consensus behind Ctx.Consensus
 	Genesis  []byte
 	Root     *pb.InternalBlock
 	closed   bool
@@ -296,6 +302,11 @@ func (n *Node) openState() error {
 	mk := Ring[MinerKey]
 	cctx.Address = &xaddress.Address{Address: mk.Address, PrivateKey: mk.Priv, PrivateKeyStr: mk.PrvJSON, PublicKey: &mk.Priv.PublicKey, PublicKeyStr: mk.PubJSON}
 	n.Chain = xuperos.VerifNewChain(cctx)
+	// the collaborators of Miner.ProcBlock / trySyncBlock: a scripted peer network and a scripted consensus
+	n.Net = NewSyncNet()
+	n.Cons = NewSyncConsensus()
+	cctx.EngCtx.Net = n.Net
+	cctx.Consensus = n.Cons
 	n.Miner = miner.NewMiner(cctx)
 	return nil
 }
